@@ -122,6 +122,15 @@ def run(ctx):
         if ratio.k == 'bin' and ratio.a == 'Div':
             num, den = ratio.b, ratio.c
             cnt = num.mentions_call(r'Iterator>::count$|Iterator::count$')
+            if cnt is None:
+                # equivalent form: the confirming witnesses are collected once and `.len()` is the numerator
+                nl = num.mentions_call(r'Vec::<.*>::len$|<impl \[T\]>::len$')
+                if nl is not None:
+                    for x in nl.walk():
+                        if x.k == 'let' and x.c.mentions_call(r'Iterator::filter$|Iterator>::filter$') is not None \
+                                and x.c.mentions_call(r'Iterator::collect$|Iterator>::collect$') is not None:
+                            cnt = x.c
+                            break
             ln = den.mentions_call(r'Vec::<.*>::len$|<impl \[T\]>::len$')
             if cnt is not None and ln is not None:
                 # both over the same collected vector
@@ -174,6 +183,25 @@ def run(ctx):
                 if L.success_conds(b, bi2, r'::detect_collusion_indicators$'):
                     col = True
         ctx.ob('RATIO', 'bft:collusion-hard-failure', col, b.where(), 'a raised collusion flag stores is_valid = false: %s' % col)
+        # the collusion heuristic looks at every trusted witness (the vector the ratio is taken over), not at a
+        # subset: otherwise turning a confirmation into a denial can remove a witness from the heuristic and turn a
+        # rejection into an acceptance
+        dci = b.calls(r'::detect_collusion_indicators$')
+        okin = bool(dci)
+        why = 'detect_collusion_indicators is not called in the BFT verdict' if not dci else ''
+        den_vec = None
+        if ratio.k == 'bin' and ratio.a == 'Div':
+            dl = ratio.c.mentions_call(r'Vec::<.*>::len$|<impl \[T\]>::len$')
+            dv = [x for x in dl.walk() if x.k == 'let'] if dl is not None else []
+            den_vec = dv[0].a if dv else None
+        for c in dci:
+            arg = b.expr(c.args[1])
+            al = [x.a for x in arg.walk() if x.k == 'let']
+            if den_vec is None or not al or al[0] != den_vec:
+                okin = False
+                why = 'argument %s is not the trusted-witness vector the ratio is taken over' % arg.brief(80)
+        ctx.ob('RATIO', 'bft:collusion-input', okin, (dci[0].where() if dci else b.where()),
+               'the collusion heuristic is given the whole trusted set: %s%s' % (okin, (' — ' + why) if why else ''))
     # ---- ratio shape, normal
     if 'normal' in modes:
         b, bi, th, e = modes['normal']
